@@ -2,6 +2,7 @@
 // Oracle: 1024-bit two's-complement integers; digits extracted from the definition
 // (centred remainder, least significant first), sharing no code with the carry chain.
 #include "lib.h"
+#include "ops.h"
 #include "oracle.h"
 
 // expected digits for one coefficient: limbs a[0..a_size) (limb 0 most significant)
@@ -339,6 +340,16 @@ static void oracle_selfcheck(void) {
 
 void run_C05(void) {
   const int th = G.thorough;
+  {
+    static const char* const CNAMES[] = {"vec_znx_normalize_base2k", "vec_znx_normalize_base2k(res==a)", "vec_znx_big_normalize_base2k", "vec_znx_big_range_normalize_base2k", "znx_normalize"};
+    static const uint64_t CNS[] = {2, 8, 256, 4096, 65536};
+    for (size_t i = 0; i < ARRAY_LEN(CNS); i++)
+      for (int cfg = DISP_NATIVE; cfg >= DISP_GENERIC; cfg--)
+        for (unsigned rep = 0; rep < (th ? 5u : 1u); rep++) {
+          if (!th && CNS[i] > 4096 && cfg == DISP_GENERIC) continue;
+          ops_concurrent_case("C05 entry points", CNAMES, (int)ARRAY_LEN(CNAMES), CNS[i], cfg, CNS[i] <= 256 ? 8 : 4, rep, "concurrent_entry_calls");
+        }
+  }
   oracle_selfcheck();
   static const uint64_t smallN[] = {2, 4, 8, 16, 32, 64};
   primitive_cases(th);
